@@ -427,7 +427,11 @@ func runCheck(repo, verif, prop, tier, keep string, claim bool) int {
 					knownPrinted = append(knownPrinted, line)
 					continue
 				}
-				undischarged = append(undischarged, map[string]interface{}{"obligation": n, "answer": en.r.Status})
+				ud := map[string]interface{}{"obligation": n, "answer": en.r.Status}
+				if en.r.Solver == "ssa-scan" {
+					ud["detail"] = truncate(en.r.Output, 1200)
+				}
+				undischarged = append(undischarged, ud)
 			}
 			continue
 		}
